@@ -169,6 +169,15 @@ func rulesC04(c *Ctx) {
 				}
 			}
 			c.Check(okDom, "call:retire-before-notify-goroutine", call, gs, "the call is retired before the notifying goroutine is started")
+			// ... and it is started whenever the call was retired: no budget, slot or rate limit decides whether the peer
+			// is told (a notice that is silently dropped leaves the peer's handler running)
+			for _, v := range g.callVertices(retireObj) {
+				if !g.Dominates(v, gv) || v == gv || isDebug(g.GuardsAt(v)) {
+					continue
+				}
+				okAll, p := g.MustPass(v, g.Exits, func(u int) bool { return u == gv })
+				c.Check(okAll, "call:notice-always-sent", call, gs, "every path from conn.Retire in the cancelled arm to the return starts the goroutine that sends notifications/cancelled %s", g.PathString(p))
+			}
 			for _, nc := range calls {
 				ok, why := c.detachedNotifyCtx(lit, nc.Args[0], ctxParam)
 				c.Check(ok, "call:notify-context", lit, nc, "the notice is sent with WithTimeout(WithoutCancel(ctx), notifyCancellationTimeout) and a deferred stop %s", why)
@@ -513,6 +522,7 @@ func rulesC04(c *Ctx) {
 		c.Pin("subscriptions/listen openers", m, 2)
 	})
 
+	c.Import("R-C04-12", "a cancellation names exactly one in-flight request: a refused duplicate of an in-flight id does not take over (and later retire) the original's table entry, so the original stays cancellable", "C02", "R-C02-3", nil)
 	c.Import("R-C04-7", "cancelling one call disturbs no other: the cancellation notice is a valid message of the protocol version in use, so the peer does not answer it with an error that the transport treats as the end of the session", "C12", "R-C12-7", nil)
 
 	c.Rule("R-C04-6", "an undeliverable notice does not break the session: a failed write marks the writer broken only when the write's own context has not ended and the error is not a per-message rejection", func() { ruleWriteErrGuard(c) })
